@@ -195,6 +195,7 @@ func runC10(c *Ctx) {
 		}
 		setUnitExclude(ex...)
 	}
+	deadlineSettersRule(c, "Rw", "")
 	fl := c.Obl("R0", "read-deadline-owners", "every module type with SetReadDeadline(time.Time) error is found (packetio.Buffer, dpipe.conn, udp.Conn, vnet.UDPConn, test.bridgeConn)", 5)
 	byT := map[string]*dlOwner{}
 	for _, o := range owners {
@@ -540,4 +541,68 @@ func chanRoleIn(root *ssa.Function, in ssa.Instruction, v ssa.Value) string {
 		}
 	}
 	return role
+}
+
+// deadlineSettersRule: who may move a deadline. A deadline held in a field is set only by the Set*Deadline methods of
+// its owner (a Close that clears it, or any other method that re-arms it, changes what a passed deadline means for
+// later reads). pkg restricts the rule to the deadlines of one package ("" = all).
+func deadlineSettersRule(c *Ctx, id, pkg string) {
+	p := c.P
+	floor := 5
+	if pkg != "" {
+		floor = 1
+	}
+	ow := c.Obl(id, "deadline-setters", "a deadline.Deadline held in a struct field is Set only from a Set…Deadline method of the type that holds it (not from Close, Read or other methods): a passed deadline keeps failing reads until the user changes it", floor)
+	for _, f := range p.Funcs {
+		if pkgOf(f) == "deadline" || (pkg != "" && pkgOf(f) != pkg) {
+			continue
+		}
+		instrsOf(f, func(in ssa.Instruction) {
+			cl, ok := in.(ssa.CallInstruction)
+			if !ok {
+				return
+			}
+			sc := cl.Common().StaticCallee()
+			if sc == nil || fname(sc) != "(*deadline.Deadline).Set" || len(cl.Common().Args) == 0 {
+				return
+			}
+			fr, okF := asFieldLoad(cl.Common().Args[0])
+			if !okF {
+				return // a local deadline
+			}
+			ow.Site(in.Pos(), "%s.%s set in %s", fr.SName, fr.Field, fname(f))
+			// the enclosing method (a private helper counts for its callers)
+			okCaller := false
+			var up func(g *ssa.Function, d int) bool
+			up = func(g *ssa.Function, d int) bool {
+				root := g
+				for root.Parent() != nil {
+					root = root.Parent()
+				}
+				if strings.HasPrefix(root.Name(), "Set") && strings.HasSuffix(root.Name(), "Deadline") && root.Signature.Recv() != nil && typeName(root.Signature.Recv().Type()) == fr.SName {
+					return true
+				}
+				if d > 2 || !isPrivateHelper(root) {
+					return false
+				}
+				ins := p.CG().In[root]
+				if len(ins) == 0 {
+					return false
+				}
+				for _, e := range ins {
+					if e.Kind == "ref" {
+						continue
+					}
+					if !up(e.From, d+1) {
+						return false
+					}
+				}
+				return true
+			}
+			okCaller = up(f, 0)
+			if !okCaller {
+				ow.Fail(in.Pos(), "%s sets the deadline %s.%s: only the Set…Deadline methods of %s may move it", fname(f), fr.SName, fr.Field, fr.SName)
+			}
+		})
+	}
 }
